@@ -147,7 +147,11 @@ func run(r *ev.Run) {
 			if res.Died || res.Hung {
 				// re-run alone to confirm, then report with whatever the worker printed last
 				res2 := reg.Spawn(ev.New("C01", r.Tier, "exploration"), "C01", 40*time.Minute, string(b))
-				if res2.Died || res2.Hung {
+				if res2.Hung && !strings.Contains(res2.Output, "@@HANG") {
+					// the worker was still busy when the driver's budget ran out: no datagram was
+					// stuck (that is what @@HANG reports); this is truncation, not a verdict
+					r.Capped("chain " + chainName(c) + ": worker did not finish within the 40 min budget")
+				} else if res2.Died || res2.Hung {
 					sig, what := "C01/process-died/", "the worker handling datagrams under this chain died outside a recoverable panic (log.Fatal / runtime fatal error)"
 					if strings.Contains(res2.Output, "@@HANG") {
 						sig, what = "C01/hang/", "a datagram blocked the handler for more than the watchdog"
@@ -463,7 +467,15 @@ func worker(args []string) int {
 			cl = reduced(seeds, 64)
 		}
 		n := int64(0)
+		deadline := time.Now().Add(25 * time.Minute)
 		for _, s := range cl {
+			if len(s) > 2048 {
+				continue // the deepest relay nestings (up to 64 KiB) run as seeds only
+			}
+			if time.Now().After(deadline) {
+				r.Capped("chain " + chainName(c) + ": 1-deviation closure stopped by the 25 min budget")
+				break
+			}
 			mutate(s, c.Proto, func(m []byte) bool {
 				n++
 				alive = in.handle(r, m, 0, realIdx, nil, class+"/mutant")
@@ -480,6 +492,9 @@ func worker(args []string) int {
 			// hardware-address-length / hop-count bytes) of 12 seeds
 			var n2 int64
 			for _, s := range reduced(seeds, 12) {
+				if len(s) > 2048 || time.Now().After(deadline.Add(10*time.Minute)) {
+					continue
+				}
 				lo := 4
 				if c.Proto == 4 {
 					lo = 240
